@@ -184,7 +184,16 @@ func flowEngineMatches(pattern string, methods []string, method, url string) boo
 }
 
 func flowExpressions(pattern string, methods []string) ([]string, bool, error) {
-	s, root, err := eng.NewStream(eng.Files{Flows: map[string]string{"f.yaml": flowYAML("f", pattern, methods)}})
+	return flowExpressionsMulti(pattern, [][]string{methods})
+}
+
+// flowExpressionsMulti loads one engine with one flow per method list, all on the same URL.
+func flowExpressionsMulti(pattern string, methodLists [][]string) ([]string, bool, error) {
+	files := map[string]string{}
+	for i, ml := range methodLists {
+		files[fmt.Sprintf("f%d.yaml", i)] = flowYAML(fmt.Sprintf("f%d", i), pattern, ml)
+	}
+	s, root, err := eng.NewStream(eng.Files{Flows: files})
 	defer eng.Remove(root)
 	if err != nil {
 		return nil, false, err
@@ -197,9 +206,24 @@ func flowExpressions(pattern string, methods []string) ([]string, bool, error) {
 	return out, rq.ManageAll, nil
 }
 
+func endpointsFor(pattern, methods string) []sharedConfig.EndpointConfig {
+	var eps []sharedConfig.EndpointConfig
+	for i, m := range strings.Split(methods, ",") {
+		ep := sharedConfig.EndpointConfig{URL: pattern, Method: m}
+		if i%2 == 0 {
+			ep.Remedies = []sharedConfig.Remedy{{Enabled: true, Name: "r" + m, Config: sharedConfig.RemedyConfig{FixedResponse: &sharedConfig.FixedResponseConfig{StatusCode: 418}}}}
+		} else {
+			// the second endpoint of a URL is managed through a diagnosis and a remedy
+			ep.Remedies = []sharedConfig.Remedy{{Enabled: true, Name: "r" + m, Config: sharedConfig.RemedyConfig{Retry: &sharedConfig.RetryConfig{Attempts: 1}}}}
+			ep.Diagnosis = []sharedConfig.Diagnosis{{Enabled: true, Name: "d" + m}}
+		}
+		eps = append(eps, ep)
+	}
+	return eps
+}
+
 func policyExpressions(pattern, method string) ([]string, bool) {
-	pc := &sharedConfig.PoliciesConfig{Endpoints: []sharedConfig.EndpointConfig{{URL: pattern, Method: method,
-		Remedies: []sharedConfig.Remedy{{Enabled: true, Name: "r", Config: sharedConfig.RemedyConfig{FixedResponse: &sharedConfig.FixedResponseConfig{StatusCode: 418}}}}}}}
+	pc := &sharedConfig.PoliciesConfig{Endpoints: endpointsFor(pattern, method)}
 	rq := config.BuildHAProxyEndpointsRequest(pc)
 	var out []string
 	for _, e := range rq.ManagedEndpoints {
@@ -209,8 +233,7 @@ func policyExpressions(pattern, method string) ([]string, bool) {
 }
 
 func policyEngineMatches(pattern, declMethod, method, url string) bool {
-	tree, err := config.BuildEndpointPolicyTree([]sharedConfig.EndpointConfig{{URL: pattern, Method: declMethod,
-		Remedies: []sharedConfig.Remedy{{Enabled: true, Name: "r", Config: sharedConfig.RemedyConfig{FixedResponse: &sharedConfig.FixedResponseConfig{StatusCode: 418}}}}}})
+	tree, err := config.BuildEndpointPolicyTree(endpointsFor(pattern, declMethod))
 	if err != nil {
 		return false
 	}
@@ -297,7 +320,29 @@ func TestCheck(t *testing.T) {
 				}
 			}
 		}
-		for _, dm := range []string{"GET", "POST"} {
+		// two flows on the same URL with different method lists, in one engine
+		idx++
+		if r.Mine(idx) {
+			mls := [][]string{{"GET"}, {"POST", "PUT"}}
+			if exprs, manageAll, err := flowExpressionsMulti(p, mls); err == nil && !manageAll {
+				for _, ml := range mls {
+					for _, u := range urls {
+						for _, m := range reqMethods {
+							r.Add("evaluations", 1)
+							if !flowEngineMatches(p, ml, m, u) {
+								continue
+							}
+							r.NonTrivial(fmt.Sprint("flow2", p, ml, m, u))
+							if ok, why := covered(exprs, m, u); !ok {
+								r.Violation("flow:two-flows-one-url:"+classify(p, m, u, ml), fmt.Sprintf("two flows on %s with methods %v: the engine matches %s %s (flow with methods %v) but none of the registered expressions %q does %s", p, mls, m, u, ml, exprs, why),
+									replay{"flow", p, ml, m, u})
+							}
+						}
+					}
+				}
+			}
+		}
+		for _, dm := range []string{"GET", "POST", "GET,DELETE", "POST,GET,PUT"} {
 			idx++
 			if !r.Mine(idx) {
 				continue
